@@ -88,7 +88,14 @@ func TestC17(t *testing.T) {
 
 func goUnwrap(b []byte, expect bool, key types.EncryptionKey, usage uint32) string {
 	var wt gssapi.WrapToken
+	return goUnwrapInto(&wt, b, expect, key, usage)
+}
+
+// goUnwrapInto decodes into a value the caller may have used for earlier tokens (a receiver that keeps one
+// WrapToken per connection): what was decoded before has no influence on the result.
+func goUnwrapInto(wtp *gssapi.WrapToken, b []byte, expect bool, key types.EncryptionKey, usage uint32) string {
 	var err error
+	wt := wtp
 	if p := Protect(func() { err = wt.Unmarshal(b, expect) }); p != "" {
 		return "panic " + p
 	}
@@ -100,6 +107,23 @@ func goUnwrap(b []byte, expect bool, key types.EncryptionKey, usage uint32) stri
 		return "panic " + p
 	}
 	return fmt.Sprintf("ok flags=%d ec=%d rrc=%d seq=%d payload=%s cksum=%s verify=%s", wt.Flags, wt.EC, wt.RRC, wt.SndSeqNum, X(wt.Payload), X(wt.CheckSum), B(ok))
+}
+
+func goUnmicInto(mtp *gssapi.MICToken, b []byte, expect bool, key types.EncryptionKey, usage uint32, payload []byte) string {
+	var err error
+	mt := mtp
+	if p := Protect(func() { err = mt.Unmarshal(b, expect) }); p != "" {
+		return "panic " + p
+	}
+	if err != nil {
+		return "err"
+	}
+	mt.Payload = payload
+	ok := false
+	if p := Protect(func() { ok, _ = mt.Verify(key, usage) }); p != "" {
+		return "panic " + p
+	}
+	return fmt.Sprintf("ok flags=%d seq=%d cksum=%s verify=%s", mt.Flags, mt.SndSeqNum, X(mt.Checksum), B(ok))
 }
 
 func goUnmic(b []byte, expect bool, key types.EncryptionKey, usage uint32, payload []byte) string {
@@ -166,8 +190,12 @@ func c17Wrap(m *Model, v *Verdict, rng *RNG, et int32, keyb []byte, usage uint32
 		}
 	}
 	expect := flags&1 == 1
+	var reused gssapi.WrapToken
 	cmp := func(kind string, tok []byte, exp bool, mustVerify int) {
 		g := goUnwrap(tok, exp, key, usage)
+		if gr := goUnwrapInto(&reused, tok, exp, key, usage); gr != g {
+			v.Violate("failing-input", "c17:wrap-reused-value:"+kind, "decoding a token into a WrapToken value that held an earlier token gives another result than decoding it into a fresh one", map[string]string{"token": X(tok), "earlier": X(b), "expect": B(exp), "et": itoa(et), "key": X(keyb), "usage": itoa(usage), "fresh": g, "reused": gr})
+		}
 		mo := canonErr(m.Ask(fmt.Sprintf("gss.unwrap %s %s %d %s %d", X(tok), B(exp), et, X(keyb), usage)))
 		v.Case(fmt.Sprintf("wrap/%d/%s", et, kind), "wrap "+kind)
 		d := map[string]string{"token": X(tok), "expect": B(exp), "et": itoa(et), "key": X(keyb), "usage": itoa(usage), "go": g, "model": mo, "orig": X(b)}
@@ -188,6 +216,20 @@ func c17Wrap(m *Model, v *Verdict, rng *RNG, et int32, keyb []byte, usage uint32
 		}
 	}
 	cmp("roundtrip", b, expect, 1)
+	// the same header and payload with no checksum at all (EC = 0): anybody can build that
+	if len(b) >= 16+len(payload) {
+		nc := append([]byte{}, b[:16+len(payload)]...)
+		nc[4], nc[5] = 0, 0
+		cmp("no-checksum", nc, expect, 0)
+		cmp("roundtrip", b, expect, 1)
+		// ... or with the checksum cut short
+		if ml := specMacLen(et); len(b) == 16+len(payload)+ml && ml > 4 {
+			sc := append([]byte{}, b[:len(b)-4]...)
+			sc[4], sc[5] = byte((ml-4)>>8), byte(ml-4)
+			cmp("short-checksum", sc, expect, 0)
+			cmp("roundtrip", b, expect, 1)
+		}
+	}
 	cmp("wrong-direction", b, !expect, 0)
 	if !mutate {
 		return
@@ -268,8 +310,12 @@ func c17Mic(m *Model, v *Verdict, rng *RNG, et int32, keyb []byte, usage uint32,
 		return
 	}
 	expect := flags&1 == 1
+	var reused gssapi.MICToken
 	cmp := func(kind string, tok []byte, exp bool, pl []byte, mustVerify int) {
 		g := goUnmic(tok, exp, key, usage, pl)
+		if gr := goUnmicInto(&reused, tok, exp, key, usage, pl); gr != g {
+			v.Violate("failing-input", "c17:mic-reused-value:"+kind, "decoding a token into a MICToken value that held an earlier token gives another result than decoding it into a fresh one", map[string]string{"token": X(tok), "earlier": X(b), "expect": B(exp), "et": itoa(et), "key": X(keyb), "usage": itoa(usage), "fresh": g, "reused": gr})
+		}
 		mo := canonErr(m.Ask(fmt.Sprintf("gss.unmic %s %s %d %s %d %s", X(tok), B(exp), et, X(keyb), usage, X(pl))))
 		v.Case(fmt.Sprintf("mic/%d/%s", et, kind), "mic "+kind)
 		d := map[string]string{"token": X(tok), "expect": B(exp), "et": itoa(et), "key": X(keyb), "usage": itoa(usage), "payload": X(pl), "go": g, "model": mo, "orig": X(b)}
@@ -290,6 +336,10 @@ func c17Mic(m *Model, v *Verdict, rng *RNG, et int32, keyb []byte, usage uint32,
 		}
 	}
 	cmp("roundtrip", b, expect, payload, 1)
+	if len(b) >= 16 {
+		cmp("no-checksum", b[:16], expect, payload, 0)
+		cmp("roundtrip", b, expect, payload, 1)
+	}
 	cmp("wrong-direction", b, !expect, payload, 0)
 	cmp("other-payload", b, expect, append(append([]byte{}, payload...), 1), 0)
 	if !mutate {
